@@ -11,21 +11,32 @@
 (*                the show's context key (colour -2: the fade-out entry left by a removal)             *)
 (*   S[sh].live   the RunningShow of the slot exists and is not stopped                                *)
 (*   lg[l]        logical colour of light l;   co  the coil is enabled                                *)
+(*   stk[l]       the whole stack of light l, whoever put the entries there: <<slot, priority, it is a *)
+(*                fade-out>> per entry (slot 0: the key is that of no show of this schedule)           *)
+(*   rgb[l], hw[l]  the logical colour of light l and the colour its hardware channels show, as        *)
+(*                <<r, g, b>> (0..255)                                                                 *)
 (* Slots that repeat the request of another slot (same) post the same events: what the event bus      *)
 (* shows is recorded under the original slot and compared with what the whole group does; sched, own  *)
 (* and live are per instance.  A play request that returned an instance that existed before created  *)
 (* none: its slot has no RunningShow (live = FALSE, no timer, no entries).                            *)
 (*   ref[sh][l]   colour of light l in the differential run of the same schedule without slot sh;      *)
 (*   refco[sh]    coil state in that run                                                               *)
+(* The variable seen holds the stacks as observed after the last line: NoResidueSeen is the clean-up   *)
+(* statement on what the lights really hold.  With StrictOwn the step relation itself demands that    *)
+(* the observed stacks are exactly the model's (a residue then shows as an unexplained line); without *)
+(* it the model's entries must be there and everything else on the stacks is left to the monitor.     *)
 EXTENDS Shows, TraceIO
-VARIABLES tid, l
-tvars == <<vars, tid, l>>
+CONSTANTS StrictOwn,    \* the observed stack entries must be exactly those of the model
+          HwTol         \* tolerance of colour comparisons (rounding of blends), in 1/255
+VARIABLES tid, l, seen
+tvars == <<vars, tid, l, seen>>
 Ev == TraceLines[tid].ev
 TInit == /\ tid \in 1..Len(TraceLines) /\ l = 1
          /\ cfg = TraceLines[tid].cfg /\ now = 0 /\ nops = 0 /\ act = [op |-> "init"]
          /\ st = [sh \in 1..Len(TraceLines[tid].cfg.sh) |-> Fresh]
          /\ lights = [x \in Lights |-> {}] /\ coil = {}
          /\ out = [sh \in 1..Len(TraceLines[tid].cfg.sh) |-> [steps |-> <<>>, ev |-> <<>>]]
+         /\ seen = [x \in Lights |-> {}]
 Kinds == {"played", "looped", "completed", "stopped", "qdone"}
 Cnt(q) == [k \in Kinds |-> Count(q, k)]
 Proj(q) == [i \in DOMAIN q |-> <<q[i][1], q[i][2]>>]
@@ -40,6 +51,9 @@ Cat(F, G, i) == IF i > Len(F) THEN <<>> ELSE (IF i \in G THEN F[i] ELSE <<>>) \o
 BagEq(q, r) == Len(q) = Len(r) /\ \A i \in DOMAIN q : Count(q, q[i]) = Count(r, q[i])
 \* a request that names no played / stopped events shows the other kinds only
 Seen(sh) == IF C(sh).quiet THEN Kinds \ {"played", "stopped"} ELSE Kinds
+StkOf(x) == {<<e.key, e.prio, e.out>> : e \in lights[x]}
+Abs(n) == IF n < 0 THEN -n ELSE n
+Near(a, b) == \A i \in 1..3 : Abs(a[i] - b[i]) <= HwTol
 Obs(e) ==
     /\ \A sh \in Slots :
           \* OnSchedule / ControlSemantics / EventsOnce: the steps and events on the bus
@@ -50,11 +64,19 @@ Obs(e) ==
                   /\ \A k \in Seen(sh) : Count(Cat([x \in Slots |-> out'[x].ev], Group(sh), 1), k) = Count(e.S[sh].ev, k)
           /\ Sched(st'[sh]) = e.S[sh].sched                                 \* OnSchedule (no drift)
           /\ (st'[sh].ph \in {"wait", "run"}) = e.S[sh].live                \* sync / replacement / stop
-          /\ OwnOf(sh)' = SeqToSet(e.S[sh].own)                             \* CleanAfterStop / start_time of effects
+          /\ IF StrictOwn \/ st'[sh].ph \in {"wait", "run"}                \* CleanAfterStop / start_time of effects
+             THEN OwnOf(sh)' = SeqToSet(e.S[sh].own)
+             ELSE OwnOf(sh)' \subseteq SeqToSet(e.S[sh].own)
           \* "as if it had never run": once the show is over the devices equal those of the run without it
           /\ (Alone(sh) /\ st'[sh].ph \in {"none", "done"} /\ Owned(sh)' = {} /\ \A x \in Lights : AtRest(x)')
                 => (e.ref[sh] = e.lg /\ (e.refco[sh] = e.co \/ "CoilSharedDisable" \in Deviations))
     /\ \A x \in Lights : AtRest(x)' => Top(x)' = e.lg[x]
+    \* the stacks hold the entries of the shows and nothing else
+    /\ \A x \in Lights : IF StrictOwn THEN StkOf(x)' = SeqToSet(e.stk[x]) /\ Len(e.stk[x]) = Cardinality(lights'[x])
+                          ELSE StkOf(x)' \subseteq SeqToSet(e.stk[x])
+    \* the logical colour and the hardware are those of the remaining shows (or off); a fade on a light where nothing
+    \* else is fading runs between its ends as on a clean light
+    /\ \A x \in Lights : VisKnown(x)' => (Near(e.rgb[x], Vis(x)') /\ Near(e.hw[x], Vis(x)'))
     /\ (coil' # {}) = e.co
 \* whatever request reaches a show that is over has no effect (the observations of the line must show none)
 Void(sh) == st[sh].ph = "done" /\ Op(W, [op |-> "void", sh |-> sh])
@@ -74,7 +96,15 @@ Step(e) ==
        \/ e.op = "late" /\ (Late(e.sh, e.d) \/ LateVoid(e.sh))
        \/ e.op = "adv" /\ Adv
     /\ Obs(e)
-TNext == l <= Len(Ev) /\ Step(Ev[l]) /\ l' = l + 1 /\ UNCHANGED tid
+TNext == /\ l <= Len(Ev) /\ Step(Ev[l]) /\ l' = l + 1 /\ UNCHANGED tid
+         /\ seen' = [x \in Lights |-> SeqToSet(Ev[l].stk[x])]
+\* no entry of a show that has stopped remains once its fade-out time has passed; no entry of anything but the shows
+NoResidueSeen == \A x \in Lights : \A r \in seen[x] :
+                    /\ r[1] \in Slots
+                    /\ st[r[1]].ph \in {"wait", "run"} \/ \E e \in lights[x] : e.key = r[1] /\ e.out /\ e.until > now
+\* for the run that NAMES what rejected traces show (StrictOwn = FALSE): an INVARIANT that reports every state
+\* NoResidueSeen rejects instead of stopping at the first one, so that one TLC run names all of them
+ResidueReport == NoResidueSeen \/ PrintT("RESIDUE " \o ToString(tid) \o " " \o ToString(l))
 TConfigs == {}
 TSpeeds == {}
 TSpec == TInit /\ [][TNext]_tvars
